@@ -25,8 +25,13 @@
    steps of one call run together; the clock moves only while every open call is parked
    inside its request or holds an unresolved promise) -- used to generate behaviours.
 
-   Variant "code" is go-zero; "noskip" (Reduce ignores span) and "index" (updateOffset
-   clears from the wrong bucket) are documented counterexamples.                      *)
+   Variant "code" is go-zero; documented counterexamples: "noskip" (Reduce ignores span),
+   "index" (updateOffset clears from the wrong bucket), "ctxdrop" (an entry point that
+   does not look at / does not forward the caller's context: a done context goes through
+   admission like any other), "outerfb" (the fallback is run by a layer around doReq that
+   looks at the returned error instead of at the decision: an admitted call whose request
+   itself returned (a wrapper of) ErrServiceUnavailable runs the fallback too and hands
+   back its result).                                                                  *)
 EXTENDS Breaker, Json
 
 CONSTANTS NB, BL, T0, MaxOpen, MaxOps, Gaps, GApis, GCtxs, GOuts, GAccs, Mode, Variant, Emit, ViewKind, PlainFirst
@@ -121,7 +126,7 @@ IDecide(c, api, ctx, acc, out, dec) ==
   /\ LET call == [api |-> api, ctx |-> ctx, acc |-> acc, st |-> "started", out |-> "none"]
          with(st) == [x \in DOMAIN calls \cup {c} |-> IF x = c THEN [call EXCEPT !.st = st] ELSE calls[x]]
          h == IHist
-     IN IF ctx = "done"
+     IN IF ctx = "done" /\ Variant # "ctxdrop"
           THEN /\ calls' = with("skipped")
                /\ UNCHANGED <<now, lo, recs, tot, lastPass, hard, fair, ring, off, lastTime, ilp, ok>>
         ELSE IF ICanDrop(h) /\ dec = "reject"
@@ -129,14 +134,14 @@ IDecide(c, api, ctx, acc, out, dec) ==
                /\ recs' = AddRec(recs, "d") /\ tot' = Plus3(tot, Unit3("d")) /\ hard' = HardStep(TRUE)
                /\ UNCHANGED <<now, lo, lastPass, fair, ilp>>
                /\ IAdd("d")
-               /\ ok' = (ok /\ RejectOK)
+               /\ ok' = (ok /\ RejectOK /\ CtxLive(call))
         ELSE LET set == IThrottle(h)
                  lp == IF set THEN now ELSE lastPass
              IN /\ calls' = with("admitted")                      \* AdmitEff, on the new call
                 /\ lastPass' = lp /\ hard' = HardStep(FALSE)
                 /\ UNCHANGED <<now, lo, recs, tot, fair, ring, off, lastTime>>
                 /\ ilp' = IF set THEN now ELSE ilp
-                /\ ok' = (ok /\ lp \in LastPassAfterAdmit)
+                /\ ok' = (ok /\ lp \in LastPassAfterAdmit /\ CtxLive(call))
 
 IReqStart(c) ==
   /\ MayMove(c) /\ ReqStart(c)
@@ -153,13 +158,25 @@ IRecord(c) ==
   /\ IAdd(IF CountsAsSuccess(calls[c]) THEN "s" ELSE "f")
   /\ UNCHANGED <<ilp, plan, ok, nc, hist>>
 
+\* the request's error looks like the breaker's own rejection
+LooksUnavail(out) == out \in {"unavail", "wrapUnavail"}
+
+\* doReq runs the fallback in the reject branch only; in variant "outerfb" an outer layer also
+\* runs it when an admitted, recorded call comes back with an error that Is ErrServiceUnavailable
+\* (the effect is taken, the law's guard -- FbRun is for rejected calls -- is checked)
 IFbRun(c) ==
-  /\ MayMove(c) /\ FbRun(c)
-  /\ UNCHANGED <<ivars, hist>>
+  /\ MayMove(c)
+  /\ \/ FbRun(c) /\ UNCHANGED ok
+     \/ /\ Variant = "outerfb"
+        /\ c \in DOMAIN calls /\ St(c) = "recorded" /\ HasFallback(calls[c].api) /\ LooksUnavail(calls[c].out)
+        /\ calls' = [calls EXCEPT ![c].st = "fbran"]
+        /\ ok' = (ok /\ FbOK(c))
+        /\ UNCHANGED <<now, lo, recs, tot, lastPass, hard, fair>>
+  /\ UNCHANGED <<ring, off, lastTime, ilp, plan, nc, hist>>
 
 \* what the code hands back
 IRet(call) ==
-  CASE call.st = "recorded" -> IF call.out = "panic" THEN <<"none", "same">>
+  CASE call.st = "recorded" -> IF IsPanic(call.out) THEN <<"none", "same">>
                                ELSE <<IF call.out = "ok" THEN "nil" ELSE "same", "no">>
     [] call.st = "rejected" -> <<"unavail", "no">>
     [] call.st = "fbran"    -> <<"fb", "no">>
@@ -169,6 +186,7 @@ IRet(call) ==
 ICallEnd(c) ==
   /\ c \in DOMAIN calls /\ MayMove(c) /\ calls[c].api # "allow"
   /\ St(c) \in {"recorded", "fbran", "skipped"} \/ (St(c) = "rejected" /\ ~HasFallback(calls[c].api))
+  /\ ~(Variant = "outerfb" /\ St(c) = "recorded" /\ HasFallback(calls[c].api) /\ LooksUnavail(calls[c].out))
   /\ ok' = (ok /\ ReturnOK(calls[c], IRet(calls[c])[1], IRet(calls[c])[2]))
   /\ calls' = Drop(calls, c)
   /\ UNCHANGED <<now, lo, recs, tot, lastPass, hard, fair, ring, off, lastTime, ilp, plan, nc, hist>>
